@@ -93,7 +93,31 @@ func init() {
 				return fmt.Sprintf("NewEvaluator(params, ks) with ks holding no Galois key, then ks.GaloisKeys[g] = gk, then Automorphism(ct, g, out): %s", msg)
 			})
 		},
-		race: rl((*rlweEnv).evalSubjects, true)})
+		race: func(c *eng.Ctx, cc caseCfg) {
+			e, err := newRLWEEnv(cc.P)
+			if err != nil {
+				c.Inconclusive(err.Error())
+				return
+			}
+			subs := e.evalSubjects()
+			var keep []*subject
+			for i, s := range subs {
+				if i != e.lateCfg { // judged by its own case (rlwe-late)
+					keep = append(keep, s)
+				}
+			}
+			raceSubjects(c, cc, onlySafe(keep))
+		}})
+	regGroup(&groupDef{name: "rlwe-late",
+		run: func(c *eng.Ctx, cc caseCfg) {},
+		race: func(c *eng.Ctx, cc caseCfg) {
+			e, err := newRLWEEnv(cc.P)
+			if err != nil {
+				c.Inconclusive(err.Error())
+				return
+			}
+			raceSubjects(c, cc, []*subject{e.lateRaceSubject()})
+		}})
 	regGroup(&groupDef{name: "rlwe-deep", run: rl((*rlweEnv).deepSubjects, false)})
 	bg := func(race bool) func(c *eng.Ctx, cc caseCfg) {
 		return func(c *eng.Ctx, cc caseCfg) {
@@ -125,10 +149,98 @@ func init() {
 		}
 	}
 	regGroup(&groupDef{name: "ckks", run: ck(false), race: ck(true)})
+	generic := func(name string, mk func(cc caseCfg) ([]*subject, error)) {
+		regGroup(&groupDef{name: name,
+			run: func(c *eng.Ctx, cc caseCfg) {
+				subs, err := mk(cc)
+				if err != nil {
+					c.Inconclusive(err.Error())
+					return
+				}
+				runSubjects(c, cc, subs)
+			},
+			race: func(c *eng.Ctx, cc caseCfg) {
+				subs, err := mk(cc)
+				if err != nil {
+					c.Inconclusive(err.Error())
+					return
+				}
+				raceSubjects(c, cc, onlySafe(subs))
+			}})
+	}
+	generic("rgsw", func(cc caseCfg) ([]*subject, error) {
+		e, err := newRGSWEnv(cc.P)
+		if err != nil {
+			return nil, err
+		}
+		return e.subjects(), nil
+	})
+	generic("ringpack", func(cc caseCfg) ([]*subject, error) {
+		e, err := newRPackEnv(cc.P, cc.P.LogN-2)
+		if err != nil {
+			return nil, err
+		}
+		return e.subjects(), nil
+	})
+	parties := func(cc caseCfg) int {
+		n := 3
+		fmt.Sscanf(cc.Var, "n%d", &n)
+		return n
+	}
+	generic("mp", func(cc caseCfg) ([]*subject, error) {
+		e, err := newMPEnv(cc.P, parties(cc))
+		if err != nil {
+			return nil, err
+		}
+		return e.subjects(), nil
+	})
+	generic("mpbgv", func(cc caseCfg) ([]*subject, error) {
+		e, err := newMPBGVEnv(cc.P, cc.Out, parties(cc))
+		if err != nil {
+			return nil, err
+		}
+		return e.subjects(), nil
+	})
+	regGroup(&groupDef{name: "btp",
+		run: func(c *eng.Ctx, cc caseCfg) {
+			e, err := newBTPEnv(btpCfgOf(cc))
+			if err != nil {
+				c.Inconclusive(err.Error())
+				return
+			}
+			runSubjects(c, cc, e.subjects())
+		},
+		race: func(c *eng.Ctx, cc caseCfg) {
+			e, err := newBTPEnv(btpCfgOf(cc))
+			if err != nil {
+				c.Inconclusive(err.Error())
+				return
+			}
+			raceSubjects(c, cc, e.subjects())
+		}})
+	generic("mpckks", func(cc caseCfg) ([]*subject, error) {
+		e, err := newMPCKKSEnv(cc.P, cc.Out, parties(cc))
+		if err != nil {
+			return nil, err
+		}
+		return e.subjects(), nil
+	})
+}
+
+// btpCfgOf decodes a bootstrapping configuration from the generic case descriptor: P.LogN is the
+// residual ring degree, the variant names the bootstrapping ring degree and the options.
+func btpCfgOf(cc caseCfg) btpCfg {
+	cf := btpCfg{Name: cc.P.Name, ResLogN: cc.P.LogN, CI: cc.P.Ring == "ci"}
+	var full int
+	fmt.Sscanf(cc.Var, "btpLogN%d-full%d", &cf.BtpLogN, &full)
+	cf.Full = full == 1
+	return cf
 }
 
 func enumerate(r *eng.Rand, thorough bool, add func(group string, ps pset, variant string, po *pset), addRace func(group string, ps pset, variant string, po *pset, G, procs, reps int)) {
-	mk := func(name string, logN int, ringT string, qb, pb []int) (pset, bool) { return mkPset(r, name, logN, ringT, qb, pb) }
+	mk := func(name string, logN int, ringT string, qb, pb []int) (pset, bool) {
+		return mkPset(r, name, logN, ringT, qb, pb)
+	}
 	// ---- ring layer
 	type rc struct {
 		name   string
@@ -222,7 +334,96 @@ func enumerate(r *eng.Rand, thorough bool, add func(group string, ps pset, varia
 			add("ckks", ps, "", nil)
 		}
 	}
+	// ---- rgsw, ring packing
+	for _, x := range []lc{{"rgswA", 5, "", []int{50, 40}, []int{50, 50}, 0, false, ""}, {"rgswP1w", 5, "", []int{50, 50}, []int{50}, 10, false, ""}, {"rgswNoP", 5, "", []int{50, 50}, nil, 10, false, ""}} {
+		if ps, ok := mk(x.name, x.logN, x.ringT, x.qb, x.pb); ok {
+			ps.Pow2 = x.pow2
+			add("rgsw", ps, "", nil)
+		}
+	}
+	if ps, ok := mk("rpackA", 6, "", []int{58}, []int{60}); ok {
+		add("ringpack", ps, "", nil)
+	}
+	if thorough {
+		if ps, ok := mk("rpackB", 8, "", []int{55, 45}, []int{60}); ok {
+			add("ringpack", ps, "", nil)
+		}
+		if ps, ok := mk("rpackCoef", 6, "", []int{58}, []int{60}); ok {
+			ps.NoNTT = true
+			add("ringpack", ps, "", nil)
+		}
+	}
+	// ---- multiparty
+	for _, x := range []lc{{"mpA", 5, "", []int{55, 45, 45}, []int{50, 50}, 0, false, ""}, {"mpP1w", 5, "", []int{55, 50}, []int{50}, 10, false, "h"}, {"mpCoef", 5, "", []int{55, 45}, []int{55}, 0, true, ""}} {
+		if ps, ok := mk(x.name, x.logN, x.ringT, x.qb, x.pb); ok {
+			ps.Pow2, ps.NoNTT, ps.Xs = x.pow2, x.noNTT, x.xs
+			add("mp", ps, "n3", nil)
+		}
+	}
+	if thorough {
+		if ps, ok := mk("mpB", 7, "", []int{60, 55, 55}, []int{61}); ok {
+			add("mp", ps, "n5", nil)
+			add("mp", ps, "n1", nil)
+		}
+	}
+	if ps, ok := mk("mpbgvA", 5, "", []int{55, 45, 45}, []int{50}); ok {
+		ps.T = 65537
+		add("mpbgv", ps, "n3", nil)
+		// output parameters with a longer chain: the recryption level exceeds every input level
+		if po, ok := mk("mpbgvOutLong", 5, "", []int{55, 45, 45, 45, 45}, []int{50}); ok {
+			po.T = 65537
+			add("mpbgv", ps, "n2-out-long", &po)
+		}
+		if po, ok := mk("mpbgvOutShort", 5, "", []int{58, 50}, nil); ok {
+			po.T = 65537
+			add("mpbgv", ps, "n2-out-short", &po)
+		}
+	}
+	if ps, ok := mk("mpckksA", 5, "", []int{55, 45, 45, 45, 45}, []int{55}); ok {
+		ps.LogScale = 40
+		add("mpckks", ps, "n3", nil)
+		if po, ok := mk("mpckksOutLong", 5, "", []int{55, 45, 45, 45, 45, 45, 45}, []int{55}); ok {
+			po.LogScale = 40
+			add("mpckks", ps, "n2-out-long", &po)
+		}
+	}
+	if ps, ok := mk("mpckksCI", 5, "ci", []int{55, 45, 45, 45, 45}, []int{55}); ok {
+		ps.LogScale = 40
+		add("mpckks", ps, "n2", nil)
+	}
+	// ---- bootstrapping (reduced ring degrees)
+	add("btp", pset{Name: "btpSame", LogN: 8}, "btpLogN8-full1", nil)
+	add("btp", pset{Name: "btpSwitch", LogN: 7}, "btpLogN8-full0", nil)
+	add("btp", pset{Name: "btpCI", LogN: 7, Ring: "ci"}, "btpLogN8-full0", nil)
+	if thorough {
+		add("btp", pset{Name: "btpSwitchFull", LogN: 7}, "btpLogN8-full1", nil)
+		add("btp", pset{Name: "btpCIFull", LogN: 7, Ring: "ci"}, "btpLogN8-full1", nil)
+		add("btp", pset{Name: "btpSame9", LogN: 9}, "btpLogN9-full1", nil)
+		addRace("btp", pset{Name: "raceBtp", LogN: 7}, "btpLogN8-full1", nil, 2, 4, 1)
+	}
 	// ---- concurrent variants
+	if ps, ok := mk("raceRgsw", 6, "", []int{50, 40}, []int{50, 50}); ok {
+		addRace("rgsw", ps, "", nil, 4, 4, 2)
+	}
+	if ps, ok := mk("raceMp", 6, "", []int{55, 45, 45}, []int{50, 50}); ok {
+		addRace("mp", ps, "n3", nil, 4, 4, 1)
+		if thorough {
+			addRace("mp", ps, "n3", nil, 16, 16, 1)
+		}
+	}
+	if ps, ok := mk("raceMpbgv", 5, "", []int{55, 45, 45}, []int{50}); ok {
+		ps.T = 65537
+		addRace("mpbgv", ps, "n2", nil, 3, 4, 1)
+	}
+	if ps, ok := mk("raceMpckks", 5, "", []int{55, 45, 45, 45, 45}, []int{55}); ok {
+		ps.LogScale = 40
+		addRace("mpckks", ps, "n2", nil, 3, 2, 1)
+	}
+	if thorough {
+		if ps, ok := mk("raceRpack", 6, "", []int{58}, []int{60}); ok {
+			addRace("ringpack", ps, "", nil, 4, 4, 1)
+		}
+	}
 	if ps, ok := mk("raceBgv", 6, "", []int{45, 40, 40}, []int{50, 50}); ok {
 		ps.T = 65537
 		addRace("bgv", ps, "", nil, 4, 4, 1)
@@ -243,6 +444,7 @@ func enumerate(r *eng.Rand, thorough bool, add func(group string, ps pset, varia
 	if ps, ok := mk("raceRlwe", 7, "", []int{50, 40, 40}, []int{50, 50}); ok {
 		addRace("rlwe-eval", ps, "", nil, 4, 4, 2)
 		addRace("rlwe-encdec", ps, "", nil, 3, 2, 2)
+		addRace("rlwe-late", ps, "", nil, 4, 4, 1)
 		if thorough {
 			addRace("rlwe-eval", ps, "", nil, 16, 16, 2)
 			addRace("rlwe-eval", ps, "", nil, 2, 2, 4)
